@@ -289,7 +289,7 @@ def decode_cex(spec, w, ths, M, inv, m, what, dead):
                 cex["schedule"] = [s["thread"] for s in cex["steps"] if s["k"] < k]
                 cex["steps"] = [s for s in cex["steps"] if s["k"] <= k]
                 break
-    if what == "hb":
+    if what in ("hb", "teardown"):
         cex["witness_byte"] = ev(M.wit).as_long()
     if what == "crash":
         vs = [s for s in cex["steps"] if s["thread"] in dead]
